@@ -7,4 +7,6 @@ var Targets = map[string]core.Target{
 	"C11": C11{},
 	"C09": C09{},
 	"C10": C10{},
+	"C12": C12{},
+	"C13": C13{},
 }
